@@ -137,6 +137,16 @@ pub struct Script {
     pub later_hints: bool,
     /// the source fails when asked for the element with this index
     pub err_at: Option<usize>,
+    /// what the deserializer answers to `is_human_readable()` (serde's default is true)
+    #[serde(default = "yes")]
+    pub human_readable: bool,
+    /// enter through `Deserialize::deserialize_in_place` into an existing array instead of `deserialize`
+    #[serde(default)]
+    pub in_place: bool,
+}
+
+fn yes() -> bool {
+    true
 }
 
 struct ScriptSeq {
@@ -180,6 +190,9 @@ struct ScriptDe {
 
 impl<'de> Deserializer<'de> for ScriptDe {
     type Error = E;
+    fn is_human_readable(&self) -> bool {
+        self.s.human_readable
+    }
     fn deserialize_any<V: Visitor<'de>>(self, visitor: V) -> Result<V::Value, E> {
         visitor.visit_seq(ScriptSeq { s: self.s, delivered: 0, hint_calls: std::cell::Cell::new(0), base: self.base })
     }
@@ -379,7 +392,15 @@ fn exec_n<N: ArrayLength>(case: &Case, acc: &mut Acc) -> Result<(), String> {
             acc.class("bincode_truncated");
         }
         Op::Script(s) => {
-            let r = engine::catch(|| GenericArray::<Tracked, N>::deserialize(ScriptDe { s: *s, base }));
+            let r = engine::catch(|| {
+                if s.in_place {
+                    // the array to be overwritten holds N elements of its own; they must be dropped exactly once too
+                    let mut place: GenericArray<Tracked, N> = GenericArray::from_iter((0..n as u32).map(|i| Tracked::new(700_000 + i)));
+                    Deserialize::deserialize_in_place(ScriptDe { s: *s, base }, &mut place).map(|()| place)
+                } else {
+                    GenericArray::<Tracked, N>::deserialize(ScriptDe { s: *s, base })
+                }
+            });
             let r = match r {
                 Ok(r) => r,
                 Err(c) => return Err(format!("deserialisation panicked instead of returning a result: {}", c.msg)),
@@ -469,7 +490,7 @@ fn large(which: u8, base: u32, acc: &mut Acc, case: &Case) -> Result<(), String>
         _ => {
             let n = 524288usize;
             let c = if which == 3 { n } else { n - 1 };
-            let s = Script { c, upfront: Some(c), later_hints: true, err_at: None };
+            let s = Script { c, upfront: Some(c), later_hints: true, err_at: None, human_readable: which == 3, in_place: false };
             let r = GenericArray::<u32, U524288>::deserialize(ScriptDe { s, base });
             match (which, r) {
                 (3, Ok(a)) => {
@@ -538,9 +559,12 @@ pub fn main() {
                         vec![None, Some(0), Some(n / 2), Some(n - 1), Some(n), Some(n + 1)]
                     };
                     for err_at in errs {
-                        g.push(Case { n, op: Op::Script(Script { c, upfront, later_hints, err_at }), base: rnd() });
+                        g.push(Case { n, op: Op::Script(Script { c, upfront, later_hints, err_at, human_readable: true, in_place: false }), base: rnd() });
                         if n <= 33 {
-                            g.push(Case { n, op: Op::ScriptZst(Script { c, upfront, later_hints, err_at }), base: rnd() });
+                            g.push(Case { n, op: Op::ScriptZst(Script { c, upfront, later_hints, err_at, human_readable: true, in_place: false }), base: rnd() });
+                            g.push(Case { n, op: Op::Script(Script { c, upfront, later_hints, err_at, human_readable: false, in_place: false }), base: rnd() });
+                            g.push(Case { n, op: Op::Script(Script { c, upfront, later_hints, err_at, human_readable: true, in_place: true }), base: rnd() });
+                            g.push(Case { n, op: Op::Script(Script { c, upfront, later_hints, err_at, human_readable: false, in_place: true }), base: rnd() });
                         }
                     }
                 }
@@ -564,7 +588,7 @@ pub fn main() {
         Report {
             prop: PROP,
             level: "exploration",
-            rule: "case = (N in the 34-length lattice, operation, seeded values). Formats: a recording Serializer must see serialize_tuple(N), exactly N elements in index order, end; bincode bytes must equal the concatenation of the element encodings (and the native tuple's for arities 1,2,3,4,7,12); JSON must equal the JSON of the Vec; JSON text, serde_json::Value and bincode round trips for u8/u32/f64/String/drop-tracked elements. Rejection: JSON lists with 0, N-1, N, N+1, N+2 items (text and Value), bincode input truncated at every element boundary, and a scripted deserializer delivering every count 0..=N+2 with every up-front hint (none, N, N-1, N+1, the true count, 0), truthful or absent later hints and an element error at every index (24-byte and zero-sized drop-tracked elements); arrays of 1 MiB and 2 MiB through bincode and through the scripted source with an exact hint. \
+            rule: "case = (N in the 34-length lattice, operation, seeded values). Formats: a recording Serializer must see serialize_tuple(N), exactly N elements in index order, end; bincode bytes must equal the concatenation of the element encodings (and the native tuple's for arities 1,2,3,4,7,12); JSON must equal the JSON of the Vec; JSON text, serde_json::Value and bincode round trips for u8/u32/f64/String/drop-tracked elements. Rejection: JSON lists with 0, N-1, N, N+1, N+2 items (text and Value), bincode input truncated at every element boundary, and a scripted deserializer delivering every count 0..=N+2 with every up-front hint (none, N, N-1, N+1, the true count, 0), truthful or absent later hints, an element error at every index, a deserializer that calls itself human-readable or not, entry through deserialize and through deserialize_in_place (24-byte and zero-sized drop-tracked elements); arrays of 1 MiB and 2 MiB through bincode and through the scripted source with an exact hint. \
                    Oracle: Ok iff (up-front hint absent or = N) and count = N and no error at a reached index; on Err every element the source produced has been dropped and nothing is returned; deserialisation never panics. \
                    non-trivial = rejecting cases and round trips with N >= 1; distinct = distinct case tuples",
             exhaustive: false,
